@@ -474,8 +474,8 @@ def run_c08(ctx):
     cases += witness_cases(ctx, "C08", wellformed=True)
     wf_cases = [c for c in cases if c.meta.get("wellformed")]
     other = [c for c in cases if not c.meta.get("wellformed")]
-    ctx.run_stream(wf_cases, units=["canon", "lineend", "invariants", "recon", "eofnl", "settings"], oracle=oracle)
-    ctx.run_stream(other, units=["canon", "lineend", "recon", "eofnl", "settings"], oracle=oracle)
+    ctx.run_stream(wf_cases, units=["canon", "lineend", "invariants", "recon", "eofnl", "settings", "wrapapply"], oracle=oracle)
+    ctx.run_stream(other, units=["canon", "lineend", "recon", "eofnl", "settings", "wrapapply"], oracle=oracle)
     ctx.hypotheses["H-W1 canon_fmt (final per-token data: line start => no spaces; continuation => <= 1 space, no indentation; <= 1 blank line)"] = "unit canon on every trace"
     ctx.hypotheses["no content ends in a blank before a line break"] = "unit lineend on every trace (classes F3/F7 matched against known findings)"
 
@@ -663,6 +663,9 @@ def run_c15(ctx):
         rr = insert_region(text, rng)
         if rr:
             variants.append((rr[0], "region"))
+            # multi-byte blanks (U+3000) in verbatim and formatted whitespace (F29)
+            variants.append(("".join("\u3000" if ch == " " and rng.random() < 0.2 else ch for ch in rr[0]), "region-exotic-blank"))
+        variants.append(("".join("\u3000" if ch == " " and rng.random() < 0.1 else ch for ch in text), "exotic-blank"))
         variants.append((gen.mutate(text, rng, texts), "mut"))
         variants.append(("  " * rng.randrange(0, 4) + text.replace("\n", "\n" + " " * rng.randrange(0, 7)) + "\n\n\n", "indent-shift"))
     for text, kind in variants:
@@ -689,7 +692,7 @@ PROPS["C15"] = Spec(
     theorems=['C15_offset_for_token_correct', 'C15_in_bounds', 'C15_in_bounds_formatted', 'C15_in_bounds_lf', 'C15_same_offset', 'C15_same_offset_multiline', 'C15_past_end', 'C15_no_underflow', 'C15_boundary_cursor_no_panic', 'C15_regression_ignored_whitespace_crlf', 'C15_in_bounds_all', 'C15_refuted_u16_truncation'],
     run=run_c15,
     rule="well-formed seeds and grammar programs plus relayouted, CRLF, non-ASCII, toggled-region, mutated and indentation-shifted variants; cursor list = every character boundary of the input (sampled above 120 in the quick tier) plus three offsets beyond the end, sometimes shuffled; x random configurations",
-    explanation="Theorems over the cursor model: bounds (pos_ok exactly characterised), same offset for unchanged single- and multi-line tokens, past-the-end, no usize underflow, no slicing panic for boundary cursors; bounds now unconditional (F22 repaired); one refutation (F19). The model is diffed against the real cursors on every cursor of every case; the oracle states the property directly on the real output (bounds, char boundary, same offset by independent token alignment, past end, text independent of cursors).",
+    explanation="Theorems over the cursor model: bounds (pos_ok exactly characterised), same offset for unchanged single- and multi-line tokens, past-the-end, no usize underflow, no slicing panic for boundary cursors; bounds now unconditional (F22 repaired); every reported cursor is on a character boundary of the output (F9, F29 repaired); one refutation (F19). The model is diffed against the real cursors on every cursor of every case; the oracle states the property directly on the real output (bounds, char boundary, same offset by independent token alignment, past end, text independent of cursors).",
     assumptions=["safety net does not fire (class F10)", "text independence of cursors: checked per case by the harness (CURSORDEP)"],
 )
 
@@ -745,7 +748,7 @@ def run_c12(ctx):
             cases.append(ctx.case("seed", s["text"], gen.random_cfg(rng, wrap=s["wrap"])))
             cases.append(ctx.case("seed", s["text"], gen.random_cfg(rng)))
     cases += witness_cases(ctx, "C12")
-    ctx.run_stream(cases, units=["mlstring", "mlvalue", "recon"])
+    ctx.run_stream(cases, units=["mlstring", "mlvalue", "recon", "wrapapply"])
     ctx.hypotheses["H-W5 (re-indentation uses the literal token's final indentation; reflow does not change it)"] = "unit mlstring uses the FINAL counters of the literal token on every case"
     ctx.hypotheses["plan_ok: a multi-line literal starts its line"] = "unit mlvalue compares interior lines with the literal's own indentation"
 
@@ -793,7 +796,7 @@ def run_c14(ctx):
         if t2 is not None and rng.random() < 0.5:
             wf.append(ctx.case("relayout", t2, gen.DEFAULT_CFG))
     wf += witness_cases(ctx, "C14")
-    ctx.run_stream(wf, units=["passes", "kernel", "linescover", "parents", "eofline"])
+    ctx.run_stream(wf, units=["passes", "kernel", "linescover", "parents", "eofline", "consolidators"])
     inv = []
     texts = [s["text"] for s in gen.seeds()]
     for _ in range(ctx.n(1500, 30000)):
@@ -804,7 +807,7 @@ def run_c14(ctx):
         inv.append(ctx.case("directives", directive_heavy(rng, rng.randrange(2, 30)), gen.DEFAULT_CFG))
     for _ in range(ctx.n(100, 2000)):
         inv.append(ctx.case("bytes", gen.random_bytes_text(rng, rng.randrange(1, 60)), gen.DEFAULT_CFG))
-    ctx.run_stream(inv, units=["passes", "kernel", "linescover"])
+    ctx.run_stream(inv, units=["passes", "kernel", "linescover", "consolidators"])
     ctx.hypotheses["side conditions of C14_final_lines_cover: each pass consumed to its end; skip_token only skips compiler directives"] = "unit kernel on every case (valid and invalid): replays the hook's event log through the kernel model, compares with the real pass lines and the real final lines, evaluates both side conditions"
     ctx.hypotheses["parent and Eof-line clauses (well-formed input): grammar facts"] = "extracted predicates parents_ok / eof_line_ok on the real parse result"
 
